@@ -1,6 +1,6 @@
 """C02 — bigBed write/read round trip is exact, including overlapping entries and autoSql."""
 from vlib import CaseT, hexs
-from wbprop import WigBedProp
+from wbprop import WigBedProp, byte_level_check
 import bbgen
 
 AUTOSQLS = [None, None, "BED3", "gen", "custom"]
@@ -74,6 +74,9 @@ class C02(WigBedProp):
             # the reader refuses the block that holds a (0,0) record: queries on that chromosome fail with InvalidFile
             return bool(has00) and ("failed: `A" in reason and "InvalidFile" in reason) and any(f"query {n}:" in reason for n in has00)
         return False
+
+    def extra_checks(self, rep, tier, rng, workdir):
+        byte_level_check(self, rep, workdir)
 
 
 PROP = C02()
